@@ -90,10 +90,14 @@ def run(ctx):
                                'integrate_f_profile': FALSE, 'doppler_smearing': FALSE}, no_inline=(FR + 'get_index',))
     T.SYMKIND.clear()
     ds = [e for e in I.events if e.kind == 'store' and e.data.get('target') == 'sub' and ast.unparse(e.data['base_node']) == 'self.data']
-    ctx.require(ds, 'add_signal: data update not found')
-    want = ctx.spec(asig, 'ANY[:, min(max(self.get_index(BFR[0]), 0), self.fchans):min(max(self.get_index(BFR[1]), 0), self.fchans)]',
+    if not ds:
+        ctx.ob('FORMULA', 'general injection updates self.data[:, lo:hi] in place', asig, False, {}, node=asig.node,
+               construct='self.data[:, lo:hi] += signal')
+        ds = None
+    want = None if ds is None else ctx.spec(asig, 'ANY[:, min(max(self.get_index(BFR[0]), 0), self.fchans):min(max(self.get_index(BFR[1]), 0), self.fchans)]',
                     env={'ANY': sym('ANY'), 'BFR': sym('BFR')}, I=ctx.interp(no_inline=(FR + 'get_index',)))
-    ctx.formula('FORMULA', 'general injection maps the requested range to columns [clip(i0, 0, fchans), clip(i1, 0, fchans)) — the '
+    if ds is not None:
+      ctx.formula('FORMULA', 'general injection maps the requested range to columns [clip(i0, 0, fchans), clip(i1, 0, fchans)) — the '
                 'exclusive stop may reach fchans, so the helper\'s box keeps the top channel', asig, ds[0].data['key'],
                 want.single_atom().args[1], node=ds[0].node, construct=ds[0].text() + ' [columns]')
     # RANGE: at every call site of Frame.add_signal in the package the sub-step count is provably >= 1
